@@ -65,6 +65,9 @@ def apply_op(h, o):
                 v = np.array(v, dtype=_np_dtype(o, v))
             elif o["np"] == "scalar":
                 v = np.int64(v) if _integral([v]) and isinstance(v, int) else np.float64(v)
+            elif o["np"] in ("scalar32", "scalar16") and isinstance(v, float) and (v != v or float(np.float16(v)) == v):
+                # a value (or a NaN) as a numpy scalar that is not a Python float: np.float32 / np.float16
+                v = np.float32(v) if o["np"] == "scalar32" else np.float16(v)
             if isinstance(w, list):
                 w = np.array(w, dtype=_np_dtype(o, w))
             elif o["np"] == "scalar" and w is not None:
@@ -558,6 +561,10 @@ def gen_fill(rng, edges, nan_ok=True):
             o["v"][rng.randrange(len(o["v"]))] = "nan"
         else:
             o["v"] = "nan"
+            if rng.random() < 0.6:
+                o["np"] = rng.choice(["scalar", "scalar32", "scalar16"])     # the NaN as np.float64 / np.float32 / np.float16
+    elif not isinstance(o["v"], list) and isinstance(o["v"], float) and rng.random() < 0.08:
+        o["np"] = rng.choice(["scalar32", "scalar16"])
     return o
 
 
